@@ -5,8 +5,8 @@
 //! `replay_worldline_state_at`, `PlaybackCursor::seek_to`, `add_checkpoint`, `fork`.
 //! Case language, real-code plumbing and model are shared with c07.rs (`C07.seek`).
 use crate::c07::{
-    build_seek, gen_hist, hist_tok, imp_seek, muts_tok, outs_tok, parse_seek, replay_err, run_sop, sops_tok, wt, Id,
-    Mut, SOp,
+    build_seek, gen_hist, hist_tok, imp_seek, muts_tok, outs_tok, parse_seek, replay_err, run_sop, sops_tok, wt, HistS,
+    Id, Mut, SOp, CP_TAMPERS,
 };
 use crate::prng::Rng;
 use crate::util::{hex, Toks};
@@ -18,12 +18,12 @@ pub fn streams() -> Vec<Stream> {
 }
 
 /// every mutation kind of the catalogue: (kind, needs an op/slot index argument)
-const ENTRY_MUTS: [&str; 40] = [
+const ENTRY_MUTS: [&str; 43] = [
     "e.root", "e.pdig", "e.commit", "e.parent", "e.ptick", "e.pwl", "e.pdrop", "e.tick", "e.wl", "e.gtick",
     "e.headid", "e.headwl", "e.nohead", "e.kind", "e.outs", "e.aw", "e.rcpt.drop", "e.rcpt.tx", "e.rcpt.entry",
     "e.nopatch", "p.digest", "p.policy", "p.rulepack", "p.plan", "p.decision", "p.rewrites", "p.gtick", "p.warp",
     "p.op.add", "p.op.drop", "p.op.rev", "p.op.dup", "p.op.ty", "p.in.add", "p.out.add", "p.in.drop", "p.out.drop",
-    "swap", "dup", "drop",
+    "swap", "dup", "drop", "e.p2.desc", "e.p2.asc", "e.p2.dup",
 ];
 
 /// The part of a replayed state the chain is supposed to bind.
@@ -61,6 +61,23 @@ fn diag_view(w: &WorldlineState) -> String {
         .join(",")
 }
 
+/// Every retained field of a replayed `WorldlineState` (what a reader of the state can observe).
+fn full_view(w: &WorldlineState) -> String {
+    use warp_core::echo_verif::c05 as hk;
+    format!(
+        "root={} key={:?} boundary={} txc={} ingress={} th={:?} ls={:?} lm={:?} lme={:?}",
+        hex(&w.state_root()),
+        w.root(),
+        hex(&warp_core::echo_verif::state::state_root(w.initial_state(), w.root())),
+        hk::tx_counter(w),
+        hk::committed_ingress_len(w),
+        w.tick_history(),
+        w.last_snapshot(),
+        w.last_materialization(),
+        w.last_materialization_errors()
+    )
+}
+
 /// Direct oracle: whatever was altered, every probe that reports success at tick t must hold what the
 /// UNALTERED history replays to at t. A different graph state / chain metadata is a violation; a
 /// different `last_materialization` is reported under its own key (the outputs are retained but not
@@ -95,10 +112,49 @@ fn oracle_mutate(t: &mut Toks, _tier: Tier) -> Result<OracleOut, String> {
     let mut n_ok = 0;
     let mut n_err = 0;
     let mut identical = 0;
+    // the most recent tampered checkpoint `add_checkpoint` accepted (field kind), and the honest ones before it
+    let mut cpt_accepted: Option<String> = None;
+    let mut has_cpt = false;
+    let mut honest_cps: Vec<u64> = Vec::new();
     for op in &c.ops {
         let obs = run_sop(&mut b.run, op);
+        if let SOp::Cp(claim, st, 0) | SOp::Cpo(claim, st, 0) = op {
+            if claim == st && obs.text == "cp-ok" {
+                honest_cps.push(*claim);
+            }
+        }
         if matches!(op, SOp::Cp(..) | SOp::Cpo(..)) {
             o.tags.push(format!("cp:{}", obs.text.split(':').next().unwrap_or("")));
+        }
+        if let SOp::Cpt(claim, st, k, j, _) = op {
+            has_cpt = true;
+            let class = obs.text.split(':').next().unwrap_or("").to_string();
+            o.tags.push(format!("cpt:{k}:{class}"));
+            o.tags.push(format!("cpt-after:{}", honest_cps.len().min(3)));
+            let indexed = CP_TAMPERS.iter().any(|(n, ix)| n == k && *ix);
+            for h in &honest_cps {
+                // position of the earlier honest checkpoint relative to the tampered tick_history index / tick
+                let rel = if h == claim {
+                    "same-tick"
+                } else if h > claim {
+                    "later-tick"
+                } else if !indexed {
+                    "earlier-tick"
+                } else if *h <= *j {
+                    "before-index"
+                } else if *h == *j + 1 {
+                    "at-index"
+                } else {
+                    "after-index"
+                };
+                o.tags.push(format!("cpt-rel:{rel}"));
+            }
+            if claim != st {
+                o.tags.push("cpt:claim-differs".into());
+            }
+            if obs.text == "cp-ok" && k != "none" {
+                cpt_accepted = Some(k.clone());
+            }
         }
         let (Some(tick), Some(st)) = (obs.ok_at, obs.state.as_ref()) else {
             if matches!(op, SOp::Seek(_) | SOp::Replay(_) | SOp::Step) {
@@ -121,7 +177,13 @@ fn oracle_mutate(t: &mut Toks, _tier: Tier) -> Result<OracleOut, String> {
                 ));
             }
             Ok(w0) => {
-                if bound_view(&w0) != bound_view(st) {
+                if let Some(k) = cpt_accepted.as_ref().filter(|_| full_view(&w0) != full_view(st)) {
+                    // a tampered checkpoint was accepted and a later reading differs from the untampered history's
+                    o.fails.push((
+                        format!("C05.checkpoint-tamper-accepted.{k}"),
+                        format!("after add_checkpoint accepted a checkpoint with altered `{k}`, op {op:?} ok at tick {tick} reads {} but the untampered history gives {}", full_view(st), full_view(&w0)),
+                    ));
+                } else if bound_view(&w0) != bound_view(st) {
                     o.fails.push((
                         format!("C05.accepted-different-state.{kind}"),
                         format!("op {op:?} ok at tick {tick}: {} vs original {}", bound_view(st), bound_view(&w0)),
@@ -147,7 +209,10 @@ fn oracle_mutate(t: &mut Toks, _tier: Tier) -> Result<OracleOut, String> {
     if identical > 0 {
         o.tags.push("outcome:identical".into());
     }
-    o.nontrivial = kind != "none" && n_ok + n_err >= 2;
+    if cpt_accepted.is_some() {
+        o.tags.push("cpt:accepted-identical".into());
+    }
+    o.nontrivial = (kind != "none" || has_cpt) && n_ok + n_err >= 2;
     Ok(o)
 }
 
@@ -198,19 +263,162 @@ fn probes(rng: &mut Rng, len: u64, i: u64) -> Vec<String> {
     ops
 }
 
+/// Honest-checkpoint configurations (0, 1 or 2 earlier honest checkpoints) relative to a tampered
+/// checkpoint at tick `m` whose altered tick_history index is `j` (`None`: a state-level field).
+fn honest_configs(rng: &mut Rng, j: Option<u64>, m: u64, len: u64) -> Vec<Vec<u64>> {
+    let mut reps: Vec<u64> = Vec::new();
+    let mut class = |rng: &mut Rng, lo: u64, hi: u64| {
+        // one representative tick of [lo, hi]
+        if lo <= hi {
+            reps.push(lo + rng.below(hi - lo + 1));
+        }
+    };
+    class(rng, 0, 0);
+    match j {
+        Some(j) => {
+            class(rng, 1, j.min(m.saturating_sub(1))); // before the altered index
+            if j + 1 < m {
+                class(rng, j + 1, j + 1); // its tick_history ends at the altered index
+            }
+            if m > 0 {
+                class(rng, j + 2, m - 1); // strictly after the altered index, before the tampered tick
+            }
+        }
+        None => {
+            if m > 0 {
+                class(rng, 1, m - 1)
+            }
+        }
+    }
+    class(rng, m, m); // same tick: replaced by the tampered one
+    class(rng, m + 1, len); // later tick
+    reps.sort();
+    reps.dedup();
+    let mut cfgs: Vec<Vec<u64>> = vec![Vec::new()];
+    for (x, a) in reps.iter().enumerate() {
+        cfgs.push(vec![*a]);
+        for b in &reps[x + 1..] {
+            cfgs.push(vec![*a, *b]);
+        }
+    }
+    cfgs
+}
+
+/// Probes that restore from the checkpoint at tick `m` (replay / seek / step), and around it.
+fn cp_probes(m: u64, len: u64) -> Vec<String> {
+    let mut ops: Vec<String> = Vec::new();
+    for t in m.saturating_sub(1)..=len {
+        ops.push(format!("replay {t}"));
+    }
+    ops.push(format!("new r {len}"));
+    ops.push(format!("seek {m}"));
+    ops.push(format!("seek {len}"));
+    ops.push("seek 0".into());
+    ops.push(format!("seek {}", (m + 1).min(len)));
+    ops.push(format!("seek {m}"));
+    ops.push("mode fwd step".into());
+    ops.push("mode back step".into());
+    ops.push(format!("new r {len}"));
+    ops.push("mode play step".into());
+    ops.push(format!("modeseek {m} 1 step"));
+    ops.push("step".into());
+    ops
+}
+
+/// Checkpoint tampering: every retained field of a `ReplayCheckpoint` (every tick_history index),
+/// placed after 0 / 1 / 2 honest checkpoints at every relative position, followed by readers.
+fn gen_cp_tamper(rng: &mut Rng, thorough: bool, h: &HistS, out: &mut Vec<String>) {
+    let len = h.ticks.len() as u64;
+    let none = muts_tok(&[Mut { kind: "none".into(), i: 0, a: 0 }]);
+    let mut rot = 0usize;
+    for (kind, indexed) in CP_TAMPERS {
+        // tampered checkpoint ticks: the tip and one inner tick (all in thorough)
+        let ms: Vec<u64> = if thorough { (0..=len).collect() } else {
+            let mut v = vec![len, 1 + rng.below(len - 1)];
+            if kind.starts_with("ls.") || kind.starts_with("lm.") {
+                v.push(0);
+            }
+            v.dedup();
+            v
+        };
+        for (mi, &m) in ms.iter().enumerate() {
+            let js: Vec<Option<u64>> = if !indexed {
+                vec![None]
+            } else if kind == "th.swap" {
+                (0..m.saturating_sub(1)).map(Some).collect()
+            } else {
+                (0..m).map(Some).collect()
+            };
+            for j in js {
+                let cfgs = honest_configs(rng, j, m, len);
+                // quick: the empty configuration once per kind, plus three rotating through the list
+                let pick: Vec<usize> = if thorough {
+                    (0..cfgs.len()).collect()
+                } else {
+                    let mut v: Vec<usize> = (0..3).map(|x| 1 + (rot + x * 5) % (cfgs.len() - 1).max(1)).filter(|x| *x < cfgs.len()).collect();
+                    if mi == 0 && j.map_or(true, |j| j == 0) {
+                        v.push(0);
+                    }
+                    v.sort();
+                    v.dedup();
+                    v
+                };
+                rot += 1;
+                for ci in pick {
+                    let a = match kind {
+                        "th.s.tx" | "th.r.tx" | "ls.tx" | "txc" => len + 2 + rng.below(3),
+                        "th.p.op.drop" | "th.p.in.drop" | "th.p.out.drop" => 0,
+                        _ => rng.below(3),
+                    };
+                    let mut ops: Vec<String> = cfgs[ci].iter().map(|k| format!("cpo {k} {k} 0")).collect();
+                    ops.push(format!("cpt {m} {m} {kind} {} {a}", j.unwrap_or(0)));
+                    ops.extend(cp_probes(m, len));
+                    out.push(format!("{} {} {}", hist_tok(h), none, sops_tok(&ops)));
+                }
+            }
+        }
+    }
+    // control: an untampered `cpt` after two honest checkpoints
+    let mut ops = vec!["cpo 1 1 0".to_string(), format!("cpo {} {} 0", len - 1, len - 1), format!("cpt {len} {len} none 0 0")];
+    ops.extend(cp_probes(len, len));
+    out.push(format!("{} {} {}", hist_tok(h), none, sops_tok(&ops)));
+}
+
 fn gen_mutate(rng: &mut Rng, tier: Tier) -> Vec<String> {
     let thorough = tier == Tier::Thorough;
     let mut out = Vec::new();
     let n_hist = if thorough { 30 } else { 6 };
     for hno in 0..n_hist {
-        let len = if thorough { rng.range(2, 12) } else { rng.range(2, 6) };
+        let len = if thorough { rng.range(2, 12) } else if hno < 2 { 5 - hno as u64 } else { rng.range(2, 6) };
+        let cp_tamper = len >= 3 && (thorough && hno < 6 || hno < 2);
         let mut h = gen_hist(rng, len as usize);
+        if cp_tamper {
+            // the checkpoint-tamper cases need a history on which every patch applies (else there is no
+            // honest state to package); the real code is only used to reject candidates
+            for _ in 0..40 {
+                for t in h.ticks.iter_mut() {
+                    t.pwarp = h.warp;
+                }
+                if crate::c07::honest_history(&h).map_or(false, |x| x.all_applied) {
+                    break;
+                }
+                h = gen_hist(rng, len as usize);
+            }
+        }
         // the unaltered history must be one a writer produced: base warp everywhere, receipts on most ticks
         for (i, t) in h.ticks.iter_mut().enumerate() {
             t.pwarp = h.warp;
             if i % 2 == hno % 2 && t.rcpt.is_none() {
                 t.rcpt = Some((i as u64 + 1, Vec::new()));
                 t.decision = None;
+            }
+            if cp_tamper {
+                if let Some(r) = t.rcpt.as_mut() {
+                    if r.1.is_empty() {
+                        // a non-empty receipt, so that replacing it by the empty one is an alteration
+                        r.1.push((crate::util::small_id(0x50), crate::util::small_id(0x58), crate::c07::nid(1), 1));
+                    }
+                }
             }
         }
         // control: no alteration
@@ -238,6 +446,10 @@ fn gen_mutate(rng: &mut Rng, tier: Tier) -> Vec<String> {
         for i in 0..len {
             let m = Mut { kind: "trunc".into(), i: i as usize, a: 0 };
             out.push(format!("{} {} {}", hist_tok(&h), muts_tok(&[m]), sops_tok(&probes(rng, len, i))));
+        }
+        // checkpoint tampering on the unaltered history (quick: on two of the histories)
+        if cp_tamper {
+            gen_cp_tamper(rng, thorough, &h, &mut out);
         }
     }
     out
